@@ -342,6 +342,16 @@ def _pad_basic(
             kwargs = dict(constant_values=fill_value[ax])
         else:
             kwargs = dict()
+        if ax_padding == "wrap":
+            # dask wraps at most one period per call (numpy any number):
+            # grow by whole periods until the requested widths fit
+            lower, upper = widths
+            while 0 < da_padded.sizes[dim] < max(lower, upper):
+                n = da_padded.sizes[dim]
+                step = (n if lower > n else 0, n if upper > n else 0)
+                da_padded = da_padded.pad({dim: step}, "wrap")
+                lower, upper = lower - step[0], upper - step[1]
+            widths = (lower, upper)
         da_padded = da_padded.pad({dim: widths}, ax_padding, **kwargs)
     return da_padded
 
